@@ -313,7 +313,10 @@ impl<'a> VisitMut for Rw<'a> {
                     Some(tf) => format!("{}_{}", fname, mangle(tf)),
                     None => fname.clone(),
                 };
-                let f = Ident::new(&full, Span::call_site());
+                let f: syn::Path = match parse_str(&full) {
+                    Ok(p) => p,
+                    Err(er) => { self.errors.push(format!("methodmap target `{full}`: {er}")); return; }
+                };
                 let recv0 = &m.receiver;
                 let recv: Expr = match borrow { 2 => parse_quote!(&mut #recv0), 1 => parse_quote!(& #recv0), _ => parse_quote!(#recv0) };
                 let args = &m.args;
@@ -481,6 +484,27 @@ impl VisitMut for Marker {
             out.append(&mut after);
         }
         b.stmts = out;
+    }
+}
+
+/// R11: closures. Pass 0 (before markers): collects closure expressions in pre-order; optionally replaces the n-th one.
+pub struct Closures {
+    pub found: Vec<ExprClosure>,
+    pub replace: HashMap<usize, Expr>,
+    pub log: Vec<serde_json::Value>,
+}
+impl VisitMut for Closures {
+    fn visit_expr_mut(&mut self, e: &mut Expr) {
+        if let Expr::Closure(c) = e {
+            let n = self.found.len();
+            self.found.push(c.clone());
+            if let Some(r) = self.replace.get(&n) {
+                self.log.push(json!({"rule": "R11", "src_line": line_of(c.span()), "before": format!("closure #{n}: {}", norm(&c.to_token_stream())), "after": norm(&r.to_token_stream())}));
+                *e = r.clone();
+                return;
+            }
+        }
+        visit_mut::visit_expr_mut(self, e);
     }
 }
 
